@@ -4096,6 +4096,18 @@ coap_dispatch(coap_context_t *context, coap_session_t *session,
       coap_show_pdu(COAP_LOG_DEBUG, pdu);
     }
   }
+#if COAP_CLIENT_SUPPORT
+  else if (COAP_PDU_IS_RESPONSE(pdu) && session->oscore_encryption &&
+           COAP_RESPONSE_CLASS(pdu->code) == 2 &&
+           oscore_find_association(session, &pdu->actual_token) != NULL) {
+    /*
+     * RFC8613 2: A successful response to a request with the OSCORE option
+     * SHALL contain the OSCORE option.  Ignore it, the request stays open.
+     */
+    coap_log_warn("OSCORE: Unprotected response to a protected request ignored\n");
+    goto cleanup;
+  }
+#endif /* COAP_CLIENT_SUPPORT */
 #endif /* COAP_OSCORE_SUPPORT */
 
   switch (pdu->type) {
